@@ -88,6 +88,25 @@ func buildC09Mapped() *participle.Parser[c09Mapped] {
 	return participle.MustBuild[c09Mapped](participle.Lexer(c09MappedLex), participle.Upper("Ident"), participle.Unquote("String"))
 }
 
+// buildC09MappedGlobal: three mappers registered for every token type (Map with no symbols) in front of mappers for
+// three different token types. Which mappers a token goes through, and in which order, must not depend on what other
+// goroutines lex at the same time (a per-token mapper list assembled in a buffer shared by the parser's lexers, C09-r11m1).
+func buildC09MappedGlobal() *participle.Parser[c09Mapped] {
+	ws := c09MappedLex.Symbols()["WS"]
+	tag := func(mark string) participle.Option {
+		return participle.Map(func(t lexer.Token) (lexer.Token, error) {
+			if !t.EOF() && t.Type != ws {
+				t.Value += mark
+			}
+			return t, nil
+		})
+	}
+	return participle.MustBuild[c09Mapped](participle.Lexer(c09MappedLex), tag("'"), tag("^"), tag("~"),
+		participle.Upper("Ident"),
+		participle.Map(func(t lexer.Token) (lexer.Token, error) { t.Value = "#" + t.Value; return t, nil }, "Int"),
+		participle.Map(func(t lexer.Token) (lexer.Token, error) { t.Value = "<" + t.Value + ">"; return t, nil }, "Punct", "String"))
+}
+
 // buildC09Interp: string interpolation -- the mapper of String tokens parses the text of the string with the very
 // parser it belongs to (a user function may call back into the library, from any goroutine).
 func buildC09Interp() *participle.Parser[c09Mapped] {
@@ -249,6 +268,9 @@ func materialise(o *c09Obj) (*sharedObj, string) {
 	case "mapped":
 		s.call = parserCalls(buildC09Mapped())
 		s.expect = func(kind, in string) any { return parserCalls(buildC09Mapped())(kind, in) }
+	case "mapped-global":
+		s.call = parserCalls(buildC09MappedGlobal())
+		s.expect = func(kind, in string) any { return parserCalls(buildC09MappedGlobal())(kind, in) }
 	case "interp":
 		s.call = parserCalls(buildC09Interp())
 		s.expect = func(kind, in string) any { return parserCalls(buildC09Interp())(kind, in) }
@@ -341,7 +363,8 @@ func materialise(o *c09Obj) (*sharedObj, string) {
 }
 
 const c09Rule = "workloads: 1-4 shared objects (generated parsers whose nodes carry Tokens/[]lexer.Token fields, stateful definitions with " +
-	"back-references, a token-list parser over such a definition, a parser with two mappers (Upper + Unquote), the package-level ebnf " +
+	"back-references (closers that refer to one group or to two), a token-list parser over such a definition, a parser with two mappers (Upper + Unquote), " +
+	"a parser with three all-token mappers in front of mappers for three token types, the package-level ebnf " +
 	"parser, a parser whose mapper calls the parser it belongs to, ported example parsers) x 2-16 goroutines released together, each running a drawn list of ParseString / ParseBytes / " +
 	"Parse / Lex / String / LexString+drain calls on generated inputs, after a drawn sequential history of calls on the same objects; " +
 	"oracle: every result, compared after all goroutines have finished, deep-equals the result of the same call on a fresh instance " +
@@ -594,7 +617,15 @@ func TestC09(t *testing.T) {
 			case k == 8:
 				// definitions that cache compiled back-reference patterns: different delimiters must not share an entry
 				o.Kind = rapid.SampledFrom([]string{"rules", "rules-parser"}).Draw(t, "brk")
-				if rapid.Bool().Draw(t, "fence") {
+				if fam := rapid.IntRange(0, 2).Draw(t, "brfamily"); fam == 2 {
+					// closers that refer to two groups: entries that agree on one group and differ on the other
+					// must not share a compiled pattern (C09-r11m2)
+					rs, gen := lexgen.GenBackrefFamily(t)
+					o.RS = rs
+					for j := 0; j < 8; j++ {
+						o.Inputs = append(o.Inputs, gen(t))
+					}
+				} else if fam == 0 {
 					o.RS = &lexgen.RuleSet{States: []lexgen.StateSpec{
 						{Name: "Root", Rules: []lexgen.RuleSpec{{Name: "Fence", Pattern: "`+", Action: "push", Target: "Code"}, {Name: "Text", Pattern: "[^`]+"}}},
 						{Name: "Code", Rules: []lexgen.RuleSpec{{Name: "FenceEnd", Pattern: `\0`, Action: "pop"}, {Name: "Code", Pattern: "[^`]+|`"}}},
@@ -632,7 +663,7 @@ func TestC09(t *testing.T) {
 				o.Kind = "fresh-sexpr"
 				o.Inputs = []string{`1 (2 3) 4`, `(define (f x) (g x "s" #y))`, `[a : 1] #(1 2)`, `(1 (2`, ``}
 			default:
-				o.Kind = rapid.SampledFrom([]string{"mapped", "interp"}).Draw(t, "mappedkind")
+				o.Kind = rapid.SampledFrom([]string{"mapped", "interp", "mapped-global"}).Draw(t, "mappedkind")
 				o.Inputs = c09MappedInputs
 				if o.Kind == "interp" {
 					o.Inputs = append([]string{`say "hello world 1" twice`, `"a \"b c\" d" "x"`}, c09MappedInputs...)
